@@ -3,7 +3,8 @@
 Model     lean/IofloModel/Model/Flo.lean (frameEnter / frameExit / frameRecur / segue, claim / release, Act.done),
           Model/FloProg.lean (done-conditions NeedDone / NeedDoneAux any | all | named)
 Theorems  lean/IofloModel/Props/C09.lean
-Tree      /repo + fixes/D4-completing-import-aux-slave.patch (without it `done <name>` raises NameError at resolve)
+Tree      /repo with fixes/D4-completing-import-aux-slave.patch (without it `done <name>` raises NameError at resolve),
+          fixes/D3d-checkenter-claims-aux-once.patch and fixes/D3b-suspender-runs-and-exits-only-own-aux.patch
 Tie       floeng.gen_auxes programs (plain auxiliaries at several levels, several per frame, rarely shared; `done me`
           and `done <aux>`; transitions on any/all/named done-conditions), real Builder + Skedder vs the Lean
           interpreter, full traces.
@@ -27,21 +28,24 @@ class CHECK(FloCheck):
             "frame, 6 % of the clauses reuse an original; `done me`, `done <aux>`; go on any/all/<aux> in frame … is done, "
             "<aux> is done, tick counter, recurred. Non-trivial = a plain auxiliary is entered; distinct by program")
     TRUSTED = ["correspondence: real Builder + Skedder vs the Lean interpreter (engine 'flo'), full traces; the tree is "
-               "/repo with fixes/D4-completing-import-aux-slave.patch applied",
+               "/repo with fixes D4, D3b, D3d applied",
                "the outcome of done-conditions is compared through the transitions they enable (correspondence); the oracle "
                "itself does not evaluate them"]
-    PARTIAL = ["C09_single_owner_full is refuted by C09_counterexample_D3d (two frames of one outline naming the same "
-               "original auxiliary are both entered; known finding D3d); the ownership test at check time is C08_check_enter",
+    PARTIAL = ["single owner: C09_single_owner_checked / C08_claims_distinct (the check refuses a double claim, all programs) "
+               "and C09_owner_invariant (all runs of WF programs); that an auxiliary is never entered twice without exit in "
+               "programs with shared auxiliaries is checked by the oracle only (rule 0, 0') — frames left entered by D3c can "
+               "still be re-entered (known finding D3c)",
                "`exactly once per run` is stated as the structure of segue/recur (one call per list element), not as a count "
                "over traces"]
     TECHNIQUE = "Lean 4 theorems about the frame/auxiliary structure of the framer model + differential correspondence"
     LEVEL_TEXT = ("Proved for every program, semantics and level: C09_aux_entered_with_main, C09_claim_original, "
                   "C09_aux_exited_with_main, C09_deactivateAux, C09_release_original, C09_exit_leaves_aux_done (WF), "
                   "C09_aux_segue_before_transitions, C09_aux_recur_after_reacts, C09_forEach_cons, C09_done_sets_done, "
-                  "C09_need_done_aux_semantics (incl. `all` over no auxiliaries is false). PARTIAL: the single-owner clause "
-                  "is false of the code — C09_counterexample_D3d.")
+                  "C09_need_done_aux_semantics (incl. `all` over no auxiliaries is false). Single owner (fix D3d): C09_single_owner_checked, "
+                  "C09_fixed_D3d (the former counterexample program is refused at start), C09_owner_invariant (along every run "
+                  "of a well-formed program an original auxiliary that is not done has main = the frame naming it).")
     LEVEL_NOTE = ("Trusted: Lean kernel; axioms propext, Classical.choice, Quot.sound; transcription validated by the "
-                  "correspondence on /repo + D4 fix.")
+                  "correspondence on /repo with the fixes.")
 
     def generate(self, rng, n, tier):
         for _ in range(n):
@@ -59,7 +63,7 @@ class CHECK(FloCheck):
     def region(self, finding, case):
         reply = core.Driver("flo").run([floeng.encode(case["prog"])])[0]
         flags = [l for l in reply.split("|") if l.startswith("G ")]
-        want = {"D3": "overlap=1", "D3b": "shared=1", "D3c": "left=1", "D3d": "shared=1"}.get(finding.get("id"))
+        want = {"D3": "overlap=1", "D3c": "left=1", "D3e": "both=1"}.get(finding.get("id"))
         return bool(flags) and want is not None and want in flags[0]
 
     def oracle(self, case, out):
@@ -85,6 +89,7 @@ class CHECK(FloCheck):
                             plain.append((g, it["aux"]))
                 g += 1
         allplain = list(plain)
+        sharedplain = [(f, y) for (f, y) in plain if uses[y] > 1]
         plain = [(f, y) for (f, y) in plain if uses[y] == 1]
         frames_of = {}
         for fg, o in owner.items():
@@ -120,6 +125,16 @@ class CHECK(FloCheck):
                 holders = sorted({f for (f, y2) in allplain if y2 == y and f in seen and entered.get(f)})
                 if len(holders) > 1:
                     return "%s: auxiliary m%d is a plain auxiliary of the entered frames %s at once" % (where, y, holders)
+            # (0') an auxiliary named by several clauses: an entered frame that names it owns it, and it is running
+            for (f, y) in sharedplain:
+                if f not in seen:
+                    continue
+                if entered.get(f):
+                    if snap[y]["active"] is None or snap[y]["main"] != f:
+                        return "%s: frame f%d is entered but the auxiliary m%d it shares is %s with main %s" % (
+                            where, f, y, "inactive" if snap[y]["active"] is None else "active", snap[y]["main"])
+                elif snap[y]["main"] == f:
+                    return "%s: frame f%d is not entered but still owns the auxiliary m%d" % (where, f, y)
             for (f, y) in plain:
                 if f not in seen:
                     continue
